@@ -785,3 +785,186 @@ static void LAUNCH_%(k)s(%(decl)s) {
 
 
 PRELUDE = PRELUDE + PHASE_PRELUDE
+
+
+# ------------------------------------------------------------------ OpenMP race instrumentation (C21)
+RACE_PRELUDE = r'''
+/* ---- two-iteration non-interference: every access through a tracked pointer inside a `#pragma omp parallel for` loop is
+ * reported; the watched address is a symbolic input, so the final assertion covers every location. ---- */
+#define VERIF_MAXIT 6
+static char *verif_watch; static int verif_in_par, verif_cur, verif_niter, verif_atomic;
+static int hit_plain[VERIF_MAXIT], hit_atomic[VERIF_MAXIT];
+static char *verif_acc(char *addr) {
+  if (verif_in_par && addr == verif_watch && verif_cur >= 0 && verif_cur < VERIF_MAXIT) { if (verif_atomic > 0) hit_atomic[verif_cur] = 1; else hit_plain[verif_cur] = 1; }
+  return addr;
+}
+#define VACC(p, i) ((__typeof__(&(p)[0])) verif_acc((char *) &(p)[i]))
+static int verif_watch_local = -1; static long verif_watch_local_idx;
+static int verif_acc_local(int id, long idx) {
+  if (verif_in_par && id == verif_watch_local && idx == verif_watch_local_idx && verif_cur >= 0 && verif_cur < VERIF_MAXIT) { if (verif_atomic > 0) hit_atomic[verif_cur] = 1; else hit_plain[verif_cur] = 1; }
+  return 0;
+}
+/* variables declared in the kernel function OUTSIDE the parallel loop are shared by all threads: accesses are reported by (id, index) */
+#define VACCL(name, id, i) (&(name)[verif_acc_local(id, (long) (i)) + (i)])
+#define VACCS(name, id) (*(verif_acc_local(id, 0) ? &(name) : &(name)))
+static void verif_region_begin(void) { verif_in_par = 1; verif_niter = 0; for (int k = 0; k < VERIF_MAXIT; k++) { hit_plain[k] = 0; hit_atomic[k] = 0; } }
+static void verif_iter_begin(void) { verif_cur = verif_niter; verif_niter++; VASSUME(verif_niter <= VERIF_MAXIT); }
+static void verif_region_end(void) {
+  for (int a = 0; a < VERIF_MAXIT; a++) for (int b = 0; b < VERIF_MAXIT; b++) if (a != b) {
+    VASSERT(!(hit_plain[a] && (hit_plain[b] || hit_atomic[b])), "data race: two iterations of an OpenMP parallel loop touch the same location and at least one access is neither atomic nor critical");
+  }
+  verif_in_par = 0;
+}
+'''
+
+
+def race_instrument(omp_text):
+    """normalised C text of the OpenMP translation with access reporting; returns (text, info)"""
+    lines = []
+    info = {'parallel_loops': 0, 'atomic': 0, 'critical': 0, 'tracked': [], 'locals': []}
+    for ln in omp_text.split('\n'):
+        s = ln.strip()
+        if s.startswith('#pragma omp parallel for'):
+            lines.append('VERIF_PAR_NEXT;'); info['parallel_loops'] += 1; continue
+        if s.startswith('#pragma omp atomic'):
+            lines.append('VERIF_ATOMIC_NEXT;'); info['atomic'] += 1; continue
+        if s.startswith('#pragma omp critical'):
+            lines.append('VERIF_ATOMIC_NEXT;'); info['critical'] += 1; continue
+        if s.startswith('#pragma omp'):
+            raise Unsupported('unknown OpenMP pragma: ' + s)
+        if s.startswith('#include') or s.startswith('#pragma') or s.startswith('using namespace'):
+            continue
+        lines.append(ln)
+    t = '\n'.join(lines).replace('extern "C"', '')
+    # wrap the statement after each marker
+    while True:
+        m = re.search(r'VERIF_(ATOMIC|PAR)_NEXT;', t)
+        if not m:
+            break
+        i = m.end()
+        while t[i] in ' \t\r\n': i += 1
+        e = _stmt_end(t, i)
+        st = t[i:e]
+        if m.group(1) == 'ATOMIC':
+            rep = '{ verif_atomic++; %s verif_atomic--; }' % st
+        else:
+            if not st.startswith('for'):
+                raise Unsupported('parallel pragma not followed by a for loop')
+            j = st.index('('); he = _match(st, j)
+            body = st[he:].strip()
+            if not body.startswith('{'):
+                body = '{ ' + body + ' }'
+            rep = '{ verif_region_begin(); %s { verif_iter_begin(); %s } verif_region_end(); }' % (st[:he], body)
+        t = t[:m.start()] + rep + t[e:]
+    # tracked names per function: non-const pointer parameters, pointer locals, arrays/pointers declared in the function
+    # body outside any parallel loop
+    out = []; last = 0
+    for (hs, lp, rp, bs, be) in _top_level_functions(t):
+        if bs is None:
+            continue
+        params = [_norm_param(p) for p in _split_params(t[lp + 1:rp - 1])]
+        tracked = set()
+        for p in params:
+            if '*' in p and not re.match(r'\s*const\b', p):
+                tracked.add(_param_name(p))
+        body = t[bs:be]
+        for dm in re.finditer(r'(?<![\w])(?:const\s+)?(?:unsigned\s+|long\s+|short\s+)*(?:int|long|float|double|char|short)\s*\*\s*(?:const\s+)?(\w+)\s*(?:=|;)', body):
+            tracked.add(dm.group(1))
+        # function-scope declarations before the first parallel region: shared by all threads
+        first = body.find('verif_region_begin')
+        head = body[:first if first >= 0 else 0]
+        larr = []; lsca = []
+        for st in [l.strip() for l in head[1:].split('\n')]:
+            d = _parse_decl(st)
+            if not d or st.startswith('const'):
+                continue
+            for (ty, nm, dims, init) in d:
+                (larr if dims else lsca).append(nm)
+        nb = body
+        for name in sorted(tracked, key=len, reverse=True):
+            # name[EXPR] -> (*VACC(name, EXPR))   (innermost-first is not needed: EXPR is re-scanned because we restart)
+            pos = 0
+            while True:
+                mm = re.compile(r'(?<![\w.>])%s\s*\[' % re.escape(name)).search(nb, pos)
+                if not mm:
+                    break
+                # skip the declaration itself `T name[4];`
+                pre = nb[:mm.start()].rstrip()
+                if re.search(r'\b(int|long|float|double|char|short|unsigned)\s*\**$', pre):
+                    pos = mm.end(); continue
+                lb = mm.end() - 1
+                rb = _match(nb, lb, '[', ']')
+                rep = '(*VACC(%s, %s))' % (name, nb[lb + 1:rb - 1])
+                nb = nb[:mm.start()] + rep + nb[rb:]
+                pos = mm.start() + len('(*VACC(%s, ' % name)
+            # *name (dereference) -> (*VACC(name, 0))
+            pos = 0
+            while True:
+                mm = re.compile(r'\*\s*%s\b(?!\s*[\[(])' % re.escape(name)).search(nb, pos)
+                if not mm:
+                    break
+                pre = nb[:mm.start()].rstrip()
+                if pre and (pre[-1].isalnum() or pre[-1] in '_)]') or re.search(r'\b(int|long|float|double|char|short|unsigned|const)$', pre):
+                    pos = mm.end(); continue       # multiplication or a declaration
+                nb = nb[:mm.start()] + '(*VACC(%s, 0))' % name + nb[mm.end():]
+                pos = mm.start() + 8
+        if first >= 0 and (larr or lsca):
+            region = nb[first:]
+            for nm in larr:
+                lid = len(info['locals']); info['locals'].append(nm)
+                pos = 0
+                while True:
+                    mm = re.compile(r'(?<![\w.>])%s\s*\[' % re.escape(nm)).search(region, pos)
+                    if not mm:
+                        break
+                    lb = mm.end() - 1; rb = _match(region, lb, '[', ']')
+                    rep = '(*VACCL(%s, %d, %s))' % (nm, lid, region[lb + 1:rb - 1])
+                    region = region[:mm.start()] + rep + region[rb:]
+                    pos = mm.start() + len('(*VACCL(%s, %d, ' % (nm, lid))
+            for nm in lsca:
+                lid = len(info['locals']); info['locals'].append(nm)
+                region = re.sub(r'(?<![\w.>])%s\b(?!\s*\()' % re.escape(nm), 'VACCS(%s, %d)' % (nm, lid), region)
+            nb = nb[:first] + region
+        info['tracked'] += sorted(tracked)
+        out.append(t[last:bs]); out.append(nb); last = be
+    out.append(t[last:])
+    t = ''.join(out)
+    u = _rewrite_functions(t)
+    return rename_block(u.text, list(u.kernels), 'tr_'), info
+
+
+def race_harness(prog, mode, tr_text, active_excl=()):
+    a = ['/* program %s: OpenMP translation, race instrumentation : %s */' % (prog.name, prog.desc), PRELUDE, RACE_PRELUDE, prog.globals, tr_text]
+    m = ['int main(void) {']
+    arr = {n: (ct, sz, d) for (ct, n, sz, d) in prog.arrays}
+    call = []
+    for (ct, nm, lo, hi) in prog.args:
+        if '*' in ct:
+            if nm in arr:
+                ect, sz, d = arr[nm]
+                m.append('  %s %s_a[%d];' % (ect, nm, sz))
+                for i in range(sz):
+                    m.append('  { %s; %s_a[%d] = %s_%d;%s }' % (
+                        ('IN_F32(%s_%d)' % (nm, i)) if ect == 'float' else ('IN(%s, %s_%d)' % (ect, nm, i)), nm, i, nm, i,
+                        (' VASSUME(%s_%d >= %s && %s_%d <= %s);' % (nm, i, prog.arr_range[0], nm, i, prog.arr_range[1])) if prog.arr_range else ''))
+                call.append(nm + '_a')
+            else:
+                call.append('0')
+            continue
+        m.append('  IN_F32(%s);' % nm if ct == 'float' else '  IN(%s, %s);' % (ct, nm))
+        if lo is not None:
+            m.append('  VASSUME(%s >= %s && %s <= %s);' % (nm, lo, nm, hi))
+        call.append(nm)
+    for s in prog.assumes:
+        m.append('  VASSUME(%s);' % s)
+    # the watched location: any element of any array the kernel receives
+    m.append('  IN(int, watch_arr); IN(int, watch_idx);')
+    k = 0
+    for (ct, nm, sz, d) in prog.arrays:
+        m.append('  if (watch_arr == %d) { VASSUME(watch_idx >= 0 && watch_idx < %d); verif_watch = (char *) &%s_a[watch_idx]; }' % (k, sz, nm)); k += 1
+    m.append('  if (watch_arr >= %d) { verif_watch_local = watch_arr - %d; verif_watch_local_idx = watch_idx; }   /* a variable of the kernel function declared outside the parallel loop */' % (k, k))
+    m.append('  VASSUME(watch_arr >= 0 && watch_arr < %d + 4);' % k)
+    m.append('  tr_%s(%s);' % (prog.kernel, ', '.join(call)))
+    m += ['  VREACH();', '  return 0;', '}']
+    a.append('\n'.join(m))
+    return '\n'.join(a)
